@@ -182,6 +182,14 @@ pub fn check(case: &Case, p: &mut Probe) -> Check {
     let tail = hb.submatrix_cols(k, n);
     let invertible = tail.rank() == r;
     let hs = h.to_sparse();
+    // history: in a third of the cases the constructor first sees, on the same thread, the zero
+    // matrix of the same dimensions (singular tail: must be rejected, and must leave nothing behind)
+    if case.msg_seed % 3 == 1 {
+        let z = ldpc_toolbox::sparse::SparseMatrix::new(r, n);
+        let w = guarded(|| Encoder::from_h(&z)).map_err(|e| Fail::new("from_h-panic", format!("Encoder::from_h panicked on the {r} x {n} zero matrix: {e}")))?;
+        ensure!(w.is_err(), "accepted-singular", "Encoder::from_h accepted the {r} x {n} zero matrix");
+        p.class("after-a-rejected-call");
+    }
     let enc = guarded(|| Encoder::from_h(&hs)).map_err(|e| Fail::new("from_h-panic", format!("Encoder::from_h panicked: {e}")))?;
     match (&enc, invertible) {
         (Ok(_), false) => return Err(Fail::new("accepted-singular", "Encoder::from_h succeeded although the last r columns are singular over GF(2)".to_string())),
